@@ -47,6 +47,19 @@ def run_case(case: dict) -> dict:
     node = build(lay)
     pm = node.rpdo[1]
     ev = []
+    if case.get("premap"):
+        # the map held another (longer) mapping before: clear() and map again, as read() does
+        for i in case["premap"]:
+            try:
+                pm.add_variable(0x2000 + i, 0)
+            except Exception:  # noqa
+                pass
+        try:
+            if pm.data:
+                pm[0].raw = pm[0].raw        # touch the frame once
+        except Exception:  # noqa
+            pass
+        pm.clear()
     for i, (t, n) in enumerate(lay):
         full = n == 8 * enc.NUM_SIZE[t]
         try:
@@ -59,8 +72,15 @@ def run_case(case: dict) -> dict:
         ev.append({"e": "add", "i": i + 1, "off": var.offset, "length": var.length, "datalen": len(pm.data)})
     for op in case["ops"]:
         if op["op"] == "setframe":
-            pm.data = bytearray(op["d"])
-            ev.append({"e": "setframe", "d": list(op["d"])})
+            how = op.get("how", "assign")
+            if how == "rx":            # the frame arrives from the bus
+                pm.cob_id = 0x201
+                pm.on_message(0x201, bytearray(op["d"]), 1.0)
+            elif how == "inplace":
+                pm.data[:] = bytes(op["d"])
+            else:
+                pm.data = bytearray(op["d"])
+            ev.append({"e": "setframe", "d": list(op["d"]), "how": how})
         elif op["op"] == "write":
             var = pm[op["i"] - 1]
             val = pyval(op["v"])
